@@ -587,6 +587,8 @@ def check_arith(inp):
         if op in ('add_mps', 'add_mpo'):
             kind = 'mps' if op == 'add_mps' else 'mpo'
             x0, x1 = _obj_from_json(inp['x0'], kind), _obj_from_json(inp['x1'], kind)
+            if inp.get('same'):
+                x1 = x0
             snap = _snapshot([x0, x1])
             form = inp.get('form', 2)
             if form == 0:
@@ -600,6 +602,8 @@ def check_arith(inp):
             operands_ = [x0, x1]; rk = kind
         elif op == 'multiply_mpo':
             x0, x1 = _obj_from_json(inp['x0'], 'mpo'), _obj_from_json(inp['x1'], 'mpo')
+            if inp.get('same'):
+                x1 = x0
             snap = _snapshot([x0, x1])
             res = x0 @ x1
             ref = _dense(x0, 'mpo') @ _dense(x1, 'mpo'); got = _dense(res, 'mpo')
@@ -1302,6 +1306,8 @@ def _op_once(task, given, rng, focus):
         kinds = dict(add_mps=('mps', 'mps'), sub_mps=('mps', 'mps'), add_mpo=('mpo', 'mpo'), sub_mpo=('mpo', 'mpo'), matmul=('mpo', 'mpo'), apply=('mpo', 'mps'))[which]
         qd, qDs = _mk_charges(task, d, [P0, P1], given, rng, share_boundary=which not in ('matmul', 'apply'))
         xs = [_rand_obj(rng, k, qd.copy(), qD) for k, qD in zip(kinds, qDs)]
+        if task.get('same'):
+            xs[1] = xs[0]
         snap = _snapshot(xs)
         res = {'add_mps': lambda: xs[0] + xs[1], 'sub_mps': lambda: xs[0] - xs[1], 'add_mpo': lambda: xs[0] + xs[1], 'sub_mpo': lambda: xs[0] - xs[1],
                'matmul': lambda: xs[0] @ xs[1], 'apply': lambda: apply_operator(xs[0], xs[1])}[which]()
